@@ -1,11 +1,11 @@
 #!/usr/bin/env python3
 """Mutation self-test of the `future` engine: for every entry of selftest.json copy include/ + source/ of the hooked
-tree (VERIF_REPO, default /tmp/wt_future) to a scratch directory, apply the patch, run ./check C09 --engine future with the
+tree (VERIF_REPO, default /repo) to a scratch directory, apply the patch, run ./check C09 --engine future with the
 proposed findings as known, and compare the exit code (violation -> 1, clean -> 0).  Usage: future_selftest.py [names...]"""
 import concurrent.futures, json, os, shutil, subprocess, sys
 HERE = os.path.dirname(os.path.abspath(__file__))
 VERIF = os.path.dirname(os.path.dirname(HERE))
-BASE = os.environ.get("VERIF_REPO", "/tmp/wt_future")
+BASE = os.environ.get("VERIF_REPO", "/repo")
 muts = json.load(open(os.path.join(HERE, "selftest.json")))
 if len(sys.argv) > 1:
     muts = [m for m in muts if m["name"] in sys.argv[1:]]
